@@ -20,6 +20,9 @@ def init(cwd=".", separate=False):
             shutil.rmtree(store)
         git("init", "-q", "-b", "main", "--separate-git-dir=" + store, cwd=cwd)
         assert os.path.isfile(os.path.join(cwd, ".git"))
+        # a relative gitfile, so that a snapshot of work tree + store is a repository of its own
+        with open(os.path.join(cwd, ".git"), "w") as f:
+            f.write("gitdir: ../" + os.path.basename(store) + "\n")
     else:
         git("init", "-q", "-b", "main", cwd=cwd)
     git("config", "user.name", "mc", cwd=cwd)
@@ -53,6 +56,14 @@ def snapshot(src, dst):
     if os.path.exists(dst):
         shutil.rmtree(dst)
     shutil.copytree(src, dst, symlinks=True)
+    src_store, dst_store = os.path.abspath(src).rstrip("/") + ".gitstore", os.path.abspath(dst).rstrip("/") + ".gitstore"
+    if os.path.exists(dst_store):
+        shutil.rmtree(dst_store)
+    if os.path.isdir(src_store):
+        # separate git dir (`.git` is a file): copy the store and point the copy's gitfile at it
+        shutil.copytree(src_store, dst_store, symlinks=True)
+        with open(os.path.join(dst, ".git"), "w") as f:
+            f.write("gitdir: ../" + os.path.basename(dst_store) + "\n")
 
 
 def commit_files(rev="HEAD", cwd="."):
